@@ -7,13 +7,14 @@ W=/tmp/confirm
 if [ ! -d $W ]; then git -C /repo worktree add -q --detach $W HEAD || exit 2; fi
 cd $W && git checkout -q -- . && rm -rf tests && git clean -fdq -e target
 feat=""
-if grep -E "cargo test.*--test" $d/RUN.md | grep -q -- "--features"; then feat="--features svg,image"; fi
+# the FIRST `cargo test … --test` line of RUN.md is the command that shows the defect
+if grep -E "cargo test.*--test" $d/RUN.md | head -1 | grep -q -- "--features"; then feat="--features svg,image"; fi
 if grep -qE "roxmltree|resvg|png::" $d/demo.rs; then feat="--features svg,image"; fi
 rf=""
 if grep -q "fast_qr_verif" $d/RUN.md; then rf="--cfg fast_qr_verif"; feat="--features svg"; fi
 # demos that need the release profile (a defect compiled in only without debug assertions) or extra dev-dependencies
 rel=""
-if grep -E "cargo test" $d/RUN.md | grep -q -- "--release"; then rel="--release"; fi
+if grep -E "cargo test.*--test" $d/RUN.md | head -1 | grep -q -- "--release"; then rel="--release"; fi
 if grep -q "target-feature=+avx2" $d/RUN.md; then rf="$rf -C target-feature=+avx2"; fi
 if grep -qE "^use roxmltree|roxmltree::" $d/demo.rs && ! grep -q "^roxmltree" Cargo.toml; then
   sed -i 's/^\[dev-dependencies\]/[dev-dependencies]\nroxmltree = "0.20"/' Cargo.toml
